@@ -113,6 +113,8 @@ type Vault struct {
 	WrapAppend   int  // Wrap builds its result by appending this many bytes to the slice it was given (1..7)
 	Pad          int  // extra bytes a wrapped key carries beyond the 32 key bytes (AES-KW: 8, RSA-OAEP: modulus size - 32)
 	YieldInCalls bool // let the scheduler switch inside the callbacks (C08)
+	Cached       bool // a vault client with a key cache: the same unwrapped-key slice is handed out on every call for that wrapped key
+	cache        map[string][]byte
 	FileKey      []byte
 	WFK          []byte
 }
@@ -177,6 +179,17 @@ func (v *Vault) Unwrapper(encKey string) enc.UnwrapKeyFn {
 		out := make([]byte, len(wrappedKey))
 		for i, b := range wrappedKey {
 			out[i] = b ^ mask(encKey)
+		}
+		if v.Cached && !v.UnwrapWrong && !v.UnwrapShort {
+			// the key store's own long-lived copy: whatever the callee does to it is seen by the next call
+			if c, ok := v.cache[string(wrappedKey)]; ok {
+				return c, nil
+			}
+			if v.cache == nil {
+				v.cache = map[string][]byte{}
+			}
+			v.cache[string(wrappedKey)] = out
+			return out, nil
 		}
 		if v.UnwrapWrong && len(out) > 0 {
 			out[0] ^= 0x80
